@@ -43,7 +43,7 @@ def gen(rng, tier):
                                 [t2 + 0.125 * sx * 8.0 / r, a, 64, 0, None, 0], [t2 + 0.125 * sx * 8.0 / r, c3, 512, 0, None, 0]]
             case.pop('shadow', None)
             case['period_end'] = True
-    if rng.random() < 0.3 and not case.get('period_end'):
+    if rng.random() < 0.3 and not case.get('period_end') and not case.get('phase2') and not case.get('long_haul'):
         # equal stamps on purpose: equal weights and sizes, simultaneous arrivals
         v = case['table'][0][1]
         case['table'] = [[c, v] for c, _ in case['table']]
@@ -77,6 +77,8 @@ def run(case):
             nt = True
             stats['choice_among_classes'] = 1
             break
+    if getattr(H, 'rate2_busy', False):
+        viol = []          # the rate changed in mid busy period: no verdict from this run (see sched.parse)
     viol += sched.twin_check(r, case, ID, stats)
     res = {'viol': viol, 'digest': digest_of(r.w.log), 'nontrivial': nt, 'stats': stats,
            'simtime': float(r.w.env.now), 'steps': r.w.steps}
